@@ -109,3 +109,62 @@ def ob_eq_interval(ka: int, ha: int, ia: int, ya: int, kb: int, hb: int, ib: int
     if same and s.__hash__() != t.__hash__():
         return False
     return True
+
+
+# ------------------------------------------------------------------ printed form round trip (C18)
+from crosshair.tracers import NoTracing, ResumedTracing
+from ctparse.corpus import parse_nb_string
+
+LOW = dict(year=1, month=1, day=1, hour=0, minute=0, DOW=0, POD="morning")
+HIGH = dict(year=9999, month=12, day=31, hour=23, minute=59, DOW=6, POD="verylatelatenight")
+MID = dict(year=2020, month=2, day=29, hour=12, minute=30, DOW=3, POD="last")
+VARS = [LOW, HIGH, MID]
+FIELDS = ["year", "month", "day", "hour", "minute", "DOW", "POD"]
+
+
+def _pick(x, n):
+    with ResumedTracing():
+        for v in range(n):
+            if x == v:
+                return v
+    return 0
+
+
+def _mk(mask, var):
+    return Time(**{f: VARS[var][f] for i, f in enumerate(FIELDS) if mask & (1 << i)})
+
+
+def roundtrip_check(mask, var, mask2, var2, kind, amount, unit):
+    a, b = _mk(mask, var), _mk(mask2, var2)
+    if kind == 0:
+        objs = [a]
+    elif kind == 1:
+        objs = [Interval(a, b), Interval(a, None), Interval(None, b)]
+    else:
+        objs = [Duration(amount, UNITS[unit])]
+    for o in objs:
+        back = type(o).from_str(str(o))
+        if not (back == o) or str(back) != str(o):
+            return False, "from_str(str(x)) != x for %r: got %r" % (o, back)
+        nb = parse_nb_string(o.nb_str())
+        if not (nb == o):
+            return False, "parse_nb_string(nb_str(x)) != x for %r: got %r" % (o, nb)
+    if kind == 0 and (mask, var) != (mask2, var2) and str(a) == str(b) and not (a == b):
+        return False, "two different values print alike: %r / %r" % (a, b)
+    return True, ""
+
+
+def ob_roundtrip(mask: int, var: int, mask2: int, var2: int, kind: int, amount: int, unit: int) -> bool:
+    """
+    pre: 0 <= mask < 128 and 0 <= var < 3 and 0 <= mask2 < 128 and 0 <= var2 < 3 and 0 <= kind <= 2 and 0 <= amount <= 2 and 0 <= unit < 6
+    pre: (kind == 1 or (mask2 == 127 and var2 == 2)) and (kind == 2 or (amount == 0 and unit == 0)) and (kind != 1 or mask2 in (0, 7, 24, 31, 127))
+    pre: kind != 2 or (mask == 0 and var == 0)
+    post: _
+    """
+    with NoTracing():
+        k = _pick(kind, 3)
+        return roundtrip_check(_pick(mask, 128), _pick(var, 3), _pick(mask2, 128), _pick(var2, 3), k, [0, 7, 10000][_pick(amount, 3)], _pick(unit, 6))[0]
+
+
+def why_roundtrip(mask, var, mask2, var2, kind, amount, unit):
+    return roundtrip_check(mask, var, mask2, var2, kind, [0, 7, 10000][amount], unit)[1]
